@@ -16,6 +16,7 @@ from . import _cmdspace as S
 
 ID = "C18"
 OPTIMISED_STRIDE = {"quick": 8, "thorough": 8}      # every k-th shard once more in an interpreter started with -O
+TRACE_STRIDE = {"quick": 3, "thorough": 3}      # every k-th shard once more with logging enabled down to TRACE
 LEVEL = "exploration"
 ENGINE = "E1"
 TECHNIQUE = "exhaustive enumeration of commands, frames, sequence-number histories and report codes through the real drivers with bytes captured at the transport seam vs reference encoders"
@@ -55,7 +56,7 @@ def raw_cmd(bits, value):
     return Command(ForwardFrame(bits, value))
 
 
-def run_async(driver, cmds, start_seq=1, exc_on=True):
+def run_async(driver, cmds, start_seq=1, exc_on=True, answers=None):
     """Send cmds sequentially through an async driver; returns (raw writes, results)."""
     results = []
 
@@ -65,12 +66,12 @@ def run_async(driver, cmds, start_seq=1, exc_on=True):
                 try:
                     n0 = len(w.raw_writes)
                     r = await w.driver._send_raw(c) if False else await w.driver.send(c)
-                    results.append(("ok", n0, len(w.raw_writes)))
+                    results.append(("ok", n0, len(w.raw_writes), r))
                 except Exception as e:
                     results.append(("raised", type(e).__name__, len(w.raw_writes) - n0))
             return len(results)
         callers = [Caller("c", co)]
-        bus = lambda b, v, i: ("none",)
+        bus = (lambda b, v, i: ("none",)) if answers is None else (lambda b, v, i: answers.get((b, v), ("none",)))
         if driver in ("tridonic", "hasseb"):
             from dalimc.aio.hidworld import HidWorld
             w = HidWorld(driver, bus, callers, start_seq=start_seq, exceptions_on_send=exc_on)
@@ -87,6 +88,34 @@ def run_async(driver, cmds, start_seq=1, exc_on=True):
     finally:
         engine.HORIZON = old
     return w, results
+
+
+def check_async_decode(res, driver):
+    """Gateway -> host through the whole driver: the packets by which the gateway model reports 'backward frame v', 'no
+    answer' and (HID) 'framing error' decode to exactly that, for every value on a query of each answer type."""
+    from dali.gear.general import QueryActualLevel, QueryStatus, QueryLampFailure
+    from dali.address import GearShort
+    cmds, answers, want = [], {}, []
+    outs = [("value", v) for v in (0, 1, 2, 0x64, 0x7F, 0x80, 0xFE, 0xFF)] + [("none",)] + ([("err",)] if driver in ("tridonic", "hasseb") else [])
+    for i, out in enumerate(outs):
+        for j, cls in enumerate((QueryActualLevel, QueryStatus, QueryLampFailure)):
+            c = cls(GearShort((3 * i + j) % 64))
+            cmds.append(c)
+            answers[(16, c.frame.as_integer)] = out
+            want.append(out)
+    w, results = run_async(driver, cmds, 1, True, answers)
+    for c, r, out in zip(cmds, results, want):
+        case = {"driver": driver, "what": "classes", "bits": 16, "value": c.frame.as_integer, "twice": False, "start_seq": 1, "cls": type(c).__module__ + "." + type(c).__name__}
+        res["evaluations"] += 1
+        if r[0] != "ok":
+            add_violation(res, f"C18:{driver}:decode-raised", f"{driver}: gateway reported {out} for {c}: send raised {r[1]}", case)
+            continue
+        resp = r[3]
+        raw = getattr(resp, "raw_value", "missing")
+        got = ("none",) if raw is None else ("missing",) if raw == "missing" else (("err",) if raw.error else ("value", raw.as_integer))
+        if type(resp) is not c.response or got != out:
+            add_violation(res, f"C18:{driver}:decode", f"{driver}: the gateway's report of {out} for {type(c).__name__} came out of send() as {type(resp).__name__} {got}", case)
+        res["distinct"].add((driver, "decode", out[0]))
 
 
 def expected_async(driver, cmd, seq=None):
@@ -240,6 +269,11 @@ ASYNC = ["tridonic", "hasseb", "luba", "sci"]
 SYNC = ["daliserver", "atx", "tridonic-legacy", "hasseb-legacy", "unipi"]
 
 
+def TRACE_SHARDS(tier):
+    """Run once more with TRACE logging whatever the stride picks: every driver's command classes (queries with answers) and the decode tables."""
+    return [("classes", d) for d in ASYNC] + [("decode",), ("sync", "unipi"), ("sync", "atx")]
+
+
 def shards(tier):
     out = []
     for d in ASYNC:
@@ -268,6 +302,7 @@ def run_shard(shard):
             cmds = [c for c in cmds if len(c.frame) == 16] + [c for c in cmds if len(c.frame) == 24][:3]
         for i in range(0, len(cmds), 120):
             check_async_batch(res, d, cmds[i:i + 120], 1, "classes")
+        check_async_decode(res, d)
         sample(res, {"driver": d, "classes": len(cmds)})
     elif k == "lengths":
         d = shard[1]
